@@ -126,6 +126,20 @@ func runC08(r *Run) {
 		lo = lvl + lvl*int64(t.Intn(9, "g2-k"))/8
 		hi = lo + 1 + int64(t.Intn(3, "g2-d"))
 	}
+	if cfg.Name == "gradient" && a.qfunc != nil && estA > 1 && t.Chance(50, "gradient-near-break-even") {
+		// around the rtt at which the new limit equals the old one (gradient x est + queue == est): decreases of a
+		// fraction of a unit, where a rounding or a smoothing decision can flip between two neighbouring rtts
+		q := float64(a.qfunc(estA))
+		if frac := 1 - q/float64(estA); frac > 0.5 {
+			be := float64(base) * cfg.Tolerance / frac
+			lo = int64(be * (1 + float64(t.Intn(81, "be-lo")-40)/1000))
+			hi = lo + 1 + int64(float64(lo)*float64(1+t.Intn(30, "be-hi"))/1000)
+			if lo < 1 {
+				lo = 1
+			}
+			r.Probe("gradient_pair_near_break_even")
+		}
+	}
 	if hi > 1<<60 || hi <= lo {
 		hi = lo + 1
 	}
